@@ -29,6 +29,8 @@ def main():
         else:
             obs = v.verify(key)
         out["symexec_s"] = round(time.time() - t0, 3)
+        if getattr(v, "vacuous", False):
+            raise SpecError("vacuous contract: the requires clauses (with the declared types) are unsatisfiable")
         out["assumptions"] = sorted(v.assumptions)
         out["stats"] = v.stats
         ax = v.axioms()
